@@ -19,8 +19,9 @@ nothing of C04's Lean files is imported.  Everything above it mirrors the C++:
 * `writeAt`, `recvBufAfter`                        what MPI does to the receive buffer (messages land in any order)
 * `scatterCalls`, `roundCalls`, `applyCalls`       the `MPI_Waitany` loop + `MessageScatterer`, completion order as a
                                                    parameter
-* `sendRecv`                                       one `forward` (`fwd = true`) / `backward` (`fwd = false`)
-* `dtCalls`                                        DatatypeCommunicator: the same index lists used as MPI datatypes
+* `roundCallsAt`, `worldRound`, `runRounds`        one `forward` (`fwd = true`) / `backward` (`fwd = false`) seen from
+                                                   one process / of all processes / repeated use
+* `rawInterfaceOf`, `dtNeighbours`, `dtCalls`      DatatypeCommunicator: the same index lists used as MPI datatypes
 
 Policies (`gather`, `scatter`) and the payload type are parameters.  Core Lean only.
 -/
@@ -272,11 +273,52 @@ def roundCallsAt {Val} (comm : Nat → Comm) (fwd : Bool) (gat : Nat → Nat →
   let buf := c.recvBufAfter fwd inc (List.replicate (c.recvElems fwd) junk) arr
   c.roundCalls fwd buf order
 
+/-! ### all processes together -/
+
+/-- the containers of one process: `c0` is gathered from in a forward communication (source), `c1` scattered to
+    (target); `one`: both are the same object (`forward<GS>(data)`), only `c0` is used -/
+structure Cont (Data : Type) where
+  c0 : Data
+  c1 : Data
+  one : Bool
+
+/-- `tgt = true`: the target container -/
+def Cont.get {Data} (c : Cont Data) (tgt : Bool) : Data := if tgt && !c.one then c.c1 else c.c0
+def Cont.set {Data} (c : Cont Data) (tgt : Bool) (d : Data) : Cont Data :=
+  if tgt && !c.one then { c with c1 := d } else { c with c0 := d }
+
+/-- one collective `forward<GS>` (`fwd = true`: gather from the source containers, scatter into the target
+    containers) or `backward<GS>` of all processes; `w p` are the containers of `p` before the call, `arr q`/`order q`
+    the arrival and completion orders on `q`; result: the containers of `q` afterwards.  All gathers of a process
+    happen before its first scatter (`MessageGatherer` runs before the receives are posted). -/
+def worldRound {Val Data} (comm : Nat → Comm) (gather : Data → Nat → Nat → Val) (scatter : Data → Val → Nat → Nat → Data)
+    (junk : Val) (fwd : Bool) (arr order : Nat → List Nat) (w : Nat → Cont Data) (q : Nat) : Cont Data :=
+  (w q).set fwd (applyCalls scatter ((w q).get fwd)
+    (roundCallsAt comm fwd (fun p => gather ((w p).get (!fwd))) junk q (arr q) (order q)))
+
+/-- repeated use of one communicator: a sequence of `forward`/`backward` calls -/
+def runRounds {Val Data} (comm : Nat → Comm) (gather : Data → Nat → Nat → Val) (scatter : Data → Val → Nat → Nat → Data)
+    (junk : Val) (arr order : Bool → Nat → List Nat) : List Bool → (Nat → Cont Data) → (Nat → Cont Data)
+  | [], w => w
+  | fwd :: ds, w => runRounds comm gather scatter junk arr order ds
+      (worldRound comm gather scatter junk fwd (arr fwd) (order fwd) w)
+
 /-! ### DatatypeCommunicator -/
 
-/-- the derived datatypes are built from the same two passes, for *every* neighbour of the remote index map (no
-    `strip`); a forward communication moves, for every neighbour `p`, the entries of `p`'s send type into the
-    entries of the own receive type, in order.  `sendIdx p` = the send-side index list of `p` for this process. -/
+/-- the index lists behind the derived datatypes: the same two passes, for *every* neighbour of the remote index
+    map (`createDataTypes` does not `strip`) -/
+def rawInterfaceOf (ign : Bool) (S T : Nat → Bool) (sys : System) (p : Nat) : IfMap :=
+  buildInterfaceRaw S T (remoteSpec ign sys p)
+
+/-- the entries of `q`'s `messageTypes` map seen from the receiving side of a forward (`fwd`) or backward
+    communication: neighbour, the index list behind the neighbour's send type for `q`, the index list behind the own
+    receive type for the neighbour -/
+def dtNeighbours (raw : Nat → IfMap) (fwd : Bool) (q : Nat) : List (Nat × Info × Info) :=
+  (raw q).map fun e => (e.1, sendSide fwd ((raw e.1).get q), recvSide fwd e.2)
+
+/-- one `DatatypeCommunicator::forward()/backward()` seen from the receiving process: MPI moves, for every
+    neighbour `p`, the entries of `p`'s send type into the entries of the own receive type, in order (copy).
+    `cs`: component counts of the receiving container, `csSend p`: of `p`'s sending container. -/
 def dtCalls {Val} (cs : Nat → Nat) (gat : Nat → Nat → Nat → Val) (csSend : Nat → Nat → Nat)
     (nbs : List (Nat × Info × Info)) : List (Val × Nat × Nat) :=
   nbs.flatMap fun e =>
